@@ -1,6 +1,7 @@
 """Helpers shared by the per-property modules."""
 import hashlib
 import json
+import os
 import random
 
 from scen.base import run, api, fmt_log  # noqa: F401
@@ -19,11 +20,22 @@ def fingerprint(desc, sched):
 def sched_kwargs(desc):
     return dict(seed=desc.get("seed", 0), mode=desc.get("mode", "random"), p_switch=desc.get("p_switch", 0.2),
                 trace_lines=desc.get("trace_lines", True), replay=desc.get("replay"),
-                max_yields=desc.get("max_yields", 60000))
+                max_yields=desc.get("max_yields", 60000), hold_at=desc.get("hold_at"))
 
 
 def schedule_modes(rng):
     r = rng.random()
+    forced = os.environ.get("VERIF_MODE")      # experiments only: force one schedule strategy
+    if forced == "hold":
+        r = 0.0
+    elif forced == "bnd":
+        r = 0.25 + 0.75 * 0.2
+    elif forced == "pct":
+        r = 0.25 + 0.75 * 0.7
+    if r < 0.25:
+        # window schedules: one thread suspended at a random (mostly boundary) point until all others are blocked
+        return dict(mode="hold", p_switch=rng.choice([0.0, 0.02, 0.1]), trace_lines=True)
+    r = (r - 0.25) / 0.75
     if r < 0.12:
         return dict(mode="random", p_switch=0.02, trace_lines=True)
     if r < 0.40:
@@ -37,3 +49,13 @@ def schedule_modes(rng):
 
 def hit(sig, detail):
     return {"sig": sig, "detail": detail}
+
+
+def protocol_verdicts(s):
+    """correspondence with Model/MeFuture.lean's locking protocol on ANY scenario: a state change of a library future made without
+    that future's own lock is a step the model cannot take (its Set / Cancel frames act under the lock)"""
+    out = []
+    for (i, f, kind, cls) in wrapfut.protocol_breaks(s.log)[:1]:
+        out.append("DIVERGE %d [future locking protocol] %s.%s on %s changed the future's state without holding its own lock "
+                   "(Model/MeFuture.lean: state changes and the callback hand-over happen under the future's lock)" % (i, cls, kind, f))
+    return out
